@@ -506,6 +506,9 @@ func skipType(p unsafe.Pointer, e uintptr, t TType, maxdepth int) (int, error) {
 			}
 			i += vi
 		}
+		if uintptr(p)+uintptr(i) > e { // a fixed-size value is added without a bounds check
+			return 0, errBufferTooShort
+		}
 		return i, nil
 	case LIST, SET:
 		if uintptr(p)+uintptr(5) > e {
